@@ -153,6 +153,178 @@ def validate_translation(chk):
     chk.validation['notes'].append('reference transcription validated on %d real-PostgreSQL vectors' % n)
 
 
+# ------------------------------------------------------------------------------------------------ O3
+from harness.pgcat_state import setf, getf, opt_none, opt_some, msg_Q
+from harness.common import expectation
+import itertools
+
+
+def be(n, width):
+    return [BV(8, b) for b in (n & ((1 << (8 * width)) - 1)).to_bytes(width, 'big')]
+
+
+def bind_message(fmt_codes, params, result_formats=()):
+    """PostgreSQL Bind message (protocol docs): 'B' int32 len, portal\\0, statement\\0, int16 nfmt, int16[nfmt],
+    int16 nparams, (int32 len, bytes)*, int16 nres, int16[nres].  params: list of (length:int, [BV8...])."""
+    body = [BV(8, 0), BV(8, 0)]
+    body += be(len(fmt_codes), 2)
+    for f in fmt_codes:
+        body += be(f, 2)
+    body += be(len(params), 2)
+    for ln, data in params:
+        body += be(ln, 4)
+        body += list(data)
+    body += be(len(result_formats), 2)
+    for f in result_formats:
+        body += be(f, 2)
+    return Seq([BV(8, ord('B'))] + be(len(body) + 4, 4) + body, 'bytesmut')
+
+
+SHARD_UF = z3.Function('shard_uf', z3.BitVecSort(64), z3.BitVecSort(64), z3.BitVecSort(64), z3.BitVecSort(64))
+
+
+@expectation('c06_bind')
+def expect_bind(shards, placeholders, msg_hex, keys):
+    """Native replay under both sharding functions: the shard selected by the Bind must be the shard
+    Sharder::shard gives for the bound key (keys = reference decoding of the key parameters)."""
+    def f(res):
+        # res: [bind pg, bind sha1, shard(pg,key_i)..., shard(sha1,key_i)...]
+        out = []
+        n = len(keys)
+        for j, func in enumerate(('pg', 'sha1')):
+            st = res[j]
+            if 'panic' in st:
+                return True, 'native panic (%s): %s' % (func, st['panic'])
+            want = set(r.get('shard') for r in res[2 + j * n: 2 + (j + 1) * n])
+            want = want.pop() if len(want) == 1 else None
+            got = st.get('active_shard')
+            if want is not None and got != want:
+                return True, 'sharding_function=%s: native active_shard=%r after Bind, Sharder::shard(bound key %r)=%r' % (func, got, keys, want)
+            out.append('%s: %r==%r' % (func, got, want))
+        return False, 'agrees (' + '; '.join(out) + ')'
+    return f
+
+
+def o3_bind(chk, prog, nparams, fmts, kinds, placeholders):
+    """kinds[i] in {'b2','b4','b8','t1','t2','t3','t18'}; fmts: () | (f,) | (f1..fn) format codes (0 text / 1 binary)."""
+    name = 'O3-bind-p%d-f%s-%s-ph%s' % (nparams, ''.join(map(str, fmts)) or 'none', '_'.join(kinds), ''.join(map(str, placeholders)))
+    ob = chk.begin(name, 'infer_shard_from_bind: Bind with %d parameter(s) %s, format codes %r, key placeholders %r: the shard selected is '
+                   'Sharder::shard(bound key) for BOTH sharding functions (shard function uninterpreted here; O1 pins it to PostgreSQL); '
+                   'all byte contents symbolic' % (nparams, kinds, fmts, placeholders),
+                   {'params': nparams, 'kinds': list(kinds), 'formats': list(fmts), 'placeholders': list(placeholders), 'shards': '1..1000'})
+    fn_new = prog.lookup('QueryRouter::new')[0]
+    fn_bind = prog.lookup('QueryRouter::infer_shard_from_bind')[0]
+    ip = chk.interp(prog, name)
+    import re as _re
+
+    def shard_model(c, sharder, key):
+        ip_ = c.ip
+        sh = ip_.load(sharder.cell, sharder.path)
+        n, func = sh.fields[0], sh.fields[1].discr
+        t = bv(64, SHARD_UF(func.z(), key.z(), n.z()))
+        ip_.assume(z3.ULT(t.z(), n.z()))
+        ip_.env.setdefault('shard_calls', []).append(key)
+        return t
+    ip.overrides.append((_re.compile(r'^(?:sharding::)?Sharder::shard$'), shard_model))
+
+    def effective_format(i):
+        if len(fmts) == 0:
+            return 0
+        if len(fmts) == 1:
+            return fmts[0]
+        return fmts[i]
+
+    def harness(ip_):
+        qr = ip_.call_function(fn_new, [])
+        ps = getf(prog, qr, 'QueryRouter', 'pool_settings')
+        shards = ip_.fresh(64, 'shards')
+        ip_.assume(z3.And(z3.UGE(shards.v, 1), z3.ULE(shards.v, 1000)))
+        setf(prog, ps, 'PoolSettings', 'shards', shards)
+        func = ip_.fresh(64, 'func')
+        ip_.assume(z3.ULE(func.v, 1))
+        setf(prog, ps, 'PoolSettings', 'sharding_function', EnumV(func, {}, 'ShardingFunction'))
+        setf(prog, ps, 'PoolSettings', 'query_parser_read_write_splitting', BV(1, 1))
+        setf(prog, qr, 'QueryRouter', 'placeholders', Seq([BV(16, p) for p in placeholders], 'vec'))
+        pre = ip_.fresh(64, 'pre_shard')
+        setf(prog, qr, 'QueryRouter', 'active_shard', opt_some(pre))
+        params = []
+        values = []
+        for i, k in enumerate(kinds):
+            n = int(k[1:])
+            data = [ip_.fresh(8, 'p%d_%d' % (i, j)) for j in range(n)]
+            if k[0] == 'b':
+                raw = z3.Concat(*[d.v for d in data]) if n > 1 else data[0].v
+                values.append(z3.SignExt(64 - 8 * n, raw) if n < 8 else raw)
+            else:
+                # text: optional '-' then digits (stated bound: well-formed decimal text)
+                neg = data[0].v == ord('-') if n > 1 else z3.BoolVal(False)
+                for j, d in enumerate(data):
+                    isd = z3.And(z3.UGE(d.v, 48), z3.ULE(d.v, 57))
+                    ip_.assume(z3.Or(isd, d.v == ord('-')) if (j == 0 and n > 1) else isd)
+                acc = z3.BitVecVal(0, 64)
+                for j, d in enumerate(data):
+                    dig = z3.ZeroExt(56, d.v - 48)
+                    acc = z3.If(neg, acc, dig) if j == 0 else acc * 10 + dig
+                values.append(z3.If(neg, -acc, acc))
+            params.append((n, data))
+        msg = bind_message(list(fmts), params)
+
+        def msg_hex(m):
+            return bytes(m.eval(b.z(), True).as_long() for b in msg.items).hex()
+
+        def report(m, key, what):
+            nsh = m.eval(shards.z(), True).as_long()
+            hx = msg_hex(m)
+            keys = [signed(m.eval(v, True).as_long()) for i, v in enumerate(values) if (i + 1) in placeholders]
+            cmds = []
+            for func_name in ('pg', 'sha1'):
+                cmds.append({'op': 'qr_bind', 'settings': {'shards': nsh, 'query_parser_read_write_splitting': True,
+                                                           'sharding_function': func_name},
+                             'placeholders': list(placeholders), 'hex': hx})
+            for func_name in ('pg', 'sha1'):
+                for kv in keys:
+                    cmds.append({'op': 'shard', 'shards': str(nsh), 'key': str(kv), 'func': func_name})
+            chk.report(ob, key, what, {'shards': nsh, 'bind_hex': hx, 'placeholders': list(placeholders), 'bound_keys': keys},
+                       {'commands': cmds, 'expect': ['c06_bind', nsh, list(placeholders), hx, keys]})
+
+        try:
+            r = ip_.call_function(fn_bind, [Ptr(Cell(qr, 'qr')), Ptr(Cell(msg, 'bind'))])
+        except Panic as p:
+            report(ip_.model_for(), 'C06/O3/bind-panic/' + '_'.join(kinds), 'infer_shard_from_bind panics on a well-formed Bind: ' + p.msg)
+            return 'panic'
+        ob.nontrivial += 1
+        key_shards = []
+        for i in range(nparams):
+            if (i + 1) in placeholders:
+                f = effective_format(i)
+                if (f == 1) != (kinds[i][0] == 'b'):
+                    return 'skip-mismatched-format'      # binary bytes sent as text or vice versa: outside the claim
+                key_shards.append(SHARD_UF(func.z(), values[i], shards.z()))
+        act = getf(prog, qr, 'QueryRouter', 'active_shard')
+        got = act.variants['Some'][0]
+        if len(key_shards) == 1:
+            cond = z3.And(act.discr.z() == 1, got.z() == key_shards[0])
+        else:
+            same = z3.And(*[k == key_shards[0] for k in key_shards[1:]])
+            cond = z3.If(same, z3.And(act.discr.z() == 1, got.z() == key_shards[0]), z3.And(act.discr.z() == 1, got.z() == pre.z()))
+        m = ip_.model_for(z3.Not(cond))
+        if m is not None:
+            report(m, 'C06/O3/bind-shard/ph%s-of-%d' % (''.join(map(str, placeholders)), nparams),
+                   'a key bound as parameter %r of %d (%s) does not select Sharder::shard(key)' % (placeholders, nparams, '/'.join(kinds)))
+        if not ob.samples:
+            ob.samples.append({'bind_hex': msg_hex(ip_.model_for()), 'placeholders': list(placeholders)})
+        return 'ok'
+
+    ip.explore(harness)
+    chk.absorb(ob, ip)
+    chk.end(ob)
+
+
+def o3_set_sharding_key(chk, prog, d, quote):
+    import checks.c13 as c13
+    c13.o2_semantics(chk, prog, 0, 1000, ("SET SHARDING KEY TO " + quote, d, quote), prefix='C06/O3')
+
+
 def main(chk):
     chk.explanation = (
         'Solver-based checking of the real code: Sharder::shard and its callees are executed symbolically from '
@@ -170,6 +342,37 @@ def main(chk):
     if chk.thorough:
         o1_hash(chk, 'off')
     o1_range(chk)
+    prog = chk.program('on')
+    tasks = []
+    digs = [1, 3, 10, 18] if not chk.thorough else list(range(1, 20))
+    for d in digs:
+        tasks.append((o3_set_sharding_key, (prog, d, "'")))
+    if chk.thorough:
+        for d in digs:
+            tasks.append((o3_set_sharding_key, (prog, d, "")))
+    # Bind shapes
+    shapes = []
+    for k in ('b2', 'b4', 'b8'):
+        shapes.append((1, (1,), (k,), (1,)))
+    for k in ('t1', 't2', 't4', 't18'):
+        shapes.append((1, (), (k,), (1,)))
+        shapes.append((1, (0,), (k,), (1,)))
+    shapes.append((2, (1, 1), ('b4', 'b8'), (1,)))
+    shapes.append((2, (1, 1), ('b4', 'b8'), (2,)))
+    shapes.append((2, (0, 1), ('t2', 'b8'), (2,)))
+    shapes.append((2, (1,), ('b8', 'b8'), (1, 2)))
+    shapes.append((2, (), ('t2', 't3'), (2,)))
+    if chk.thorough:
+        shapes.append((2, (1, 0), ('b2', 't18'), (2,)))
+        shapes.append((2, (0,), ('t3', 't3'), (1, 2)))
+        shapes.append((3, (1,), ('b4', 'b4', 'b8'), (3,)))
+    for sh in shapes:
+        tasks.append((o3_bind, (prog,) + sh))
+    chk.parallel(_dispatch, tasks)
+
+
+def _dispatch(chk, fn, args):
+    fn(chk, *args)
 
 
 if __name__ == '__main__':
